@@ -191,6 +191,18 @@ def realise(case, seed=0):
         if cell in ("interval", "triangle"):
             q_ = q_ + ufl.Circumradius(dom) * ufl.CellVolume(dom)
         form = q_ * inner(u, v) * dX
+    elif term == "sesq":
+        F, G = coef("P1"), coef("P1")
+        K = ufl.Constant(dom)
+        form = (inner(F * u, G * v) + inner(grad(u), K * grad(v)) + inner(u, K * G * v)) * dX
+    elif term == "ccond":
+        F, G = ufl.Coefficient(V), coef("P1")
+        K = ufl.Constant(dom)
+        c1 = conditional(ufl.lt(x[0], 0.125), 1.0, F)                 # real-typed true branch, complex false branch
+        c2 = conditional(ufl.gt(x[gd - 1], 0.125), G, x[0])           # and the other way round
+        c3 = conditional(ufl.lt(ufl.real(G), 0.5), K, 2.0)
+        c4 = conditional(ufl.ge(x[0], 0.375), ufl.real(F), ufl.conj(K) * F)
+        form = (c1 + c2 + c3 + c4) * inner(u, v) * dX
     elif term == "cplx":
         F, G = ufl.Coefficient(V), coef("P1")
         K = ufl.Constant(dom)
@@ -390,6 +402,13 @@ def realise_tp(item):
         form = inner(ufl.Coefficient(V), v) * dx
     elif term == "withds":
         form = inner(u, v) * dx + inner(u, v) * ds
+    elif term == "gllcoef":
+        # arguments on the GLL-warped basis, coefficient on the equispaced basis of the same degree (irrational
+        # bases: no exact oracle; used for the law T[sum_factorization=True] = T[sum_factorization=False])
+        def tpv(d, variant):
+            return bu.wrap_element(basix.create_tp_element(basix.ElementFamily.P, ct, d, variant))
+        Vc = ufl.FunctionSpace(dom, tpv(deg, basix.LagrangeVariant.equispaced))
+        form = ufl.Coefficient(Vc) * inner(u, v) * dx + inner(ufl.grad(ufl.Coefficient(Vc)), ufl.grad(v)) * u * dx
     elif term == "twodegrees":
         # two quadrature degrees in one cell integral (both polynomial, both exact)
         form = inner(u, v) * dx(degree=2 * deg) + ufl.Coefficient(ufl.FunctionSpace(dom, tp(1))) * inner(u, v) * dx(degree=2 * deg + 2)
@@ -528,3 +547,29 @@ def realise_thdiv(item):
     dX = dx(metadata=custom_md(cell, item["th"].get("rule", 0)))
     form = (inner(div(a_), div(b_)) + inner(p_, q_) + inner(a_, b_)) * dX
     return {"form": form, "exact_ok": True, "case": item["th"]}
+
+
+def realise_mixedmeta(item):
+    """Integrals on one subdomain where only some carry an explicit degree: each integral must get its own
+    degree (the explicit low one, and the estimate of its own integrand for the one without metadata)."""
+    ensure_repo_on_path()
+    import basix.ufl as bu
+    import ufl
+    from ufl import dx, inner
+
+    cell, var = item["mm"]["cell"], item["mm"]["variant"]
+    td = TDIM[cell]
+    dom = ufl.Mesh(bu.element("Lagrange", cell, 1, shape=(td,)))
+    V = ufl.FunctionSpace(dom, make_element("P1", cell, td))
+    v = ufl.TestFunction(V)
+    x = ufl.SpatialCoordinate(dom)
+    f = ufl.Coefficient(ufl.FunctionSpace(dom, make_element("P2", cell, td)))
+    low = dx(degree=1) if var % 2 == 0 else dx(metadata={"quadrature_degree": 0})
+    hi = x[0] ** 3 * x[td - 1]                      # degree 4: only integrated exactly with its own estimate
+    if var % 3 == 0:
+        form = f * f * low + hi * dx                # rank 0
+    elif var % 3 == 1:
+        form = f * inner(f, v) * low + hi * v * dx  # rank 1
+    else:
+        form = hi * v * dx + f * f * v * low + x[0] * v * dx(degree=2)
+    return {"form": form, "exact_ok": True, "case": item["mm"]}
